@@ -60,6 +60,22 @@ import (
 	"verif/internal/harness"
 )
 
+// strictStructure (development aid, VERIF_C05_STRICT=1): also judge HOW the fragment is laid out (one traf per track of
+// the fragment in creation order, mfhd sequence numbers, run data tiling the mdat in write order, the documented
+// form of OptimizeTrun output). C05 is about the samples read back (and about other boxes being present), so these
+// are counted as "layout:<what>" classes in the registered commands: a library that, say, leaves out the traf of an
+// idle track or orders the runs differently keeps C05 true.
+var strictStructure = os.Getenv("VERIF_C05_STRICT") == "1"
+
+func layout(st *stats, f *harness.Fail) *harness.Fail {
+	if strictStructure {
+		return f
+	}
+	parts := strings.Split(f.Key, "|")
+	st.class("layout:" + parts[len(parts)-1])
+	return nil
+}
+
 func TestMain(m *testing.M) { harness.Main(m) }
 
 func init() {
@@ -1012,12 +1028,21 @@ func checkEncoded(c *historyCase, b *built, file []byte, nFrags int, opt mp4.Enc
 			m := &p.Moofs[k]
 			what := fmt.Sprintf("fragment %d", k)
 			k++
+			layoutOK := true
+			lay := func(key, format string, a ...interface{}) *harness.Fail {
+				layoutOK = false
+				return layout(st, harness.Failf("C05|encoded bytes (independent reader)|"+key, format, a...))
+			}
 			if m.Seq != seq {
-				return harness.Failf("C05|encoded bytes (independent reader)|sequence number differs", "%s: %d, created with %d", what, m.Seq, seq)
+				if fl := lay("sequence number differs", "%s: %d, created with %d", what, m.Seq, seq); fl != nil {
+					return fl
+				}
 			}
 			seq++
 			if len(m.Trafs) != len(f.tracks) {
-				return harness.Failf("C05|encoded bytes (independent reader)|number of trafs differs", "%s: %d trafs for tracks %v", what, len(m.Trafs), f.tracks)
+				if fl := lay("number of trafs differs", "%s: %d trafs for tracks %v", what, len(m.Trafs), f.tracks); fl != nil {
+					return fl
+				}
 			}
 			// boxes added inside the moof and the trafs: all there, in order, byte for byte
 			sameBoxes := func(got []fragbuild.PBox, want [][]byte) bool {
@@ -1039,21 +1064,39 @@ func checkEncoded(c *historyCase, b *built, file []byte, nFrags int, opt mp4.Enc
 				track       int
 			}
 			var runs []run
+			inFrag := map[int]bool{}
+			for _, ti := range f.tracks {
+				inFrag[ti] = true
+			}
+			seenTraf := map[int]bool{}
 			for i, tf := range m.Trafs {
-				if tf.Tfhd.TrackID != uint32(f.tracks[i]+1) {
-					return harness.Failf("C05|encoded bytes (independent reader)|traf order differs", "%s: traf %d has track id %d, created for %d", what, i, tf.Tfhd.TrackID, f.tracks[i]+1)
+				ti := int(tf.Tfhd.TrackID) - 1
+				if !inFrag[ti] {
+					return harness.Failf("C05|encoded bytes (independent reader)|traf of a track the fragment was not created for", "%s: traf %d has track id %d, fragment tracks %v", what, i, tf.Tfhd.TrackID, f.tracks)
 				}
-				if !sameBoxes(tf.Other, f.trafKids[f.tracks[i]]) {
-					return harness.Failf("C05|encoded bytes (independent reader)|boxes added to a traf differ", "%s traf %d: children %v, %d boxes added", what, i, tf.ChildOrder, len(f.trafKids[f.tracks[i]]))
+				if i >= len(f.tracks) || f.tracks[i] != ti {
+					if fl := lay("traf order differs", "%s: traf %d has track id %d, tracks in creation order %v", what, i, tf.Tfhd.TrackID, f.tracks); fl != nil {
+						return fl
+					}
 				}
+				// the boxes added to the traf of a track: all in the FIRST traf of that track, in order, byte for byte
+				if !seenTraf[ti] && !sameBoxes(tf.Other, f.trafKids[ti]) {
+					return harness.Failf("C05|encoded bytes (independent reader)|boxes added to a traf differ", "%s traf %d: children %v, %d boxes added", what, i, tf.ChildOrder, len(f.trafKids[ti]))
+				}
+				seenTraf[ti] = true
 				for _, tr := range tf.Truns {
 					var n uint64
 					for _, sm := range tr.Samples {
 						n += uint64(sm.Size)
 					}
 					if tr.SampleCount > 0 {
-						runs = append(runs, run{tr.Start, n, f.tracks[i]})
+						runs = append(runs, run{tr.Start, n, ti})
 					}
+				}
+			}
+			for _, ti := range f.tracks {
+				if !seenTraf[ti] && len(f.trafKids[ti]) > 0 {
+					return harness.Failf("C05|encoded bytes (independent reader)|boxes added to a traf differ", "%s: no traf for track index %d, to which %d boxes were added", what, ti, len(f.trafKids[ti]))
 				}
 			}
 			sort.SliceStable(runs, func(i, j int) bool { return runs[i].start < runs[j].start })
@@ -1068,15 +1111,20 @@ func checkEncoded(c *historyCase, b *built, file []byte, nFrags int, opt mp4.Enc
 			var order []int
 			for _, r := range runs {
 				if r.size > 0 && r.start != pos {
-					return harness.Failf("C05|encoded bytes (independent reader)|run data does not tile the mdat payload in write order", "%s: run of track index %d starts at %d, expected %d", what, r.track, r.start, pos)
+					if fl := lay("run data does not tile the mdat payload in write order", "%s: run of track index %d starts at %d, expected %d", what, r.track, r.start, pos); fl != nil {
+						return fl
+					}
+					break
 				}
 				pos += r.size
 				if r.size > 0 {
 					order = append(order, r.track)
 				}
 			}
-			if pos != m.Mdat.Offset+m.Mdat.Size {
-				return harness.Failf("C05|encoded bytes (independent reader)|run data does not fill the mdat payload", "%s: runs end at %d, mdat at %d", what, pos, m.Mdat.Offset+m.Mdat.Size)
+			if layoutOK && pos != m.Mdat.Offset+m.Mdat.Size {
+				if fl := lay("run data does not fill the mdat payload", "%s: runs end at %d, mdat at %d", what, pos, m.Mdat.Offset+m.Mdat.Size); fl != nil {
+					return fl
+				}
 			}
 			// The data of the runs lies in the mdat in the order in which the runs were started (TrunBox write order
 			// number / Fragment next-trun counter, "let that happen in write order" in CreateMultiTrackFragment; in mode
@@ -1087,11 +1135,17 @@ func checkEncoded(c *historyCase, b *built, file []byte, nFrags int, opt mp4.Enc
 					wantOrder = append(wantOrder, ti)
 				}
 			}
-			if fmt.Sprint(order) != fmt.Sprint(wantOrder) {
-				return harness.Failf("C05|encoded bytes (independent reader)|run write order differs", "%s: runs lie in the mdat in track-index order %v, they were started in order %v", what, order, wantOrder)
+			if layoutOK && fmt.Sprint(order) != fmt.Sprint(wantOrder) {
+				if fl := lay("run write order differs", "%s: runs lie in the mdat in track-index order %v, they were started in order %v", what, order, wantOrder); fl != nil {
+					return fl
+				}
 			}
-			if fail := checkOptimised(c, f, m, what, opt, st); fail != nil {
-				return fail
+			if layoutOK {
+				if fail := checkOptimised(c, f, m, what, opt, st); fail != nil {
+					if fl := layout(st, fail); fl != nil {
+						return fl
+					}
+				}
 			}
 		}
 	}
